@@ -35,19 +35,21 @@ type HConfig struct {
 }
 
 type HOp struct {
-	Kind  string `json:"kind"` // reload | stop | cancel | req:<durMs> (start a request that takes durMs, do not wait for it)
-	AtMs  int    `json:"at"`   // only for concurrent mode: offset after the previous op started
+	Kind  string `json:"kind"`  // reload | stop | cancel | req:<durMs> (start a request that takes durMs, do not wait for it)
+	AtMs  int    `json:"at"`    // only for concurrent mode: offset after the previous op started
 	Async bool   `json:"async"` // do not wait for this op before the next one
 }
 
 type HScenario struct {
 	Configs []HConfig `json:"configs"`
 	Ops     []HOp     `json:"ops"`
+	LateMs  int       `json:"lateMs"` // when the second state subscriber joins
 }
 
 type hResult struct {
 	events []string
 	hung   bool
+	stream string
 }
 
 func freeAddr() string {
@@ -144,19 +146,7 @@ func runHTTPScenario(sc HScenario) hResult {
 	}
 	ctx, cancel := context.WithCancel(context.Background())
 	defer cancel()
-	subCtx, subCancel := context.WithCancel(context.Background())
-	stateCh := runner.GetStateChan(subCtx)
-	var stMu sync.Mutex
-	var states []string
-	subDone := make(chan struct{})
-	go func() {
-		for s := range stateCh {
-			stMu.Lock()
-			states = append(states, s)
-			stMu.Unlock()
-		}
-		close(subDone)
-	}()
+	watch := watchStates(runner.GetStateChan, time.Duration(sc.LateMs)*time.Millisecond)
 	runDone := make(chan struct{})
 	go func() {
 		rec.add("RUN")
@@ -344,7 +334,13 @@ func runHTTPScenario(sc HScenario) hResult {
 		case <-runDone:
 		default:
 			fin := make(chan struct{})
-			go func() { rec.add("TC"); t0 := time.Now(); runner.Stop(); rec.add("TR:%d", time.Since(t0).Milliseconds()); close(fin) }()
+			go func() {
+				rec.add("TC")
+				t0 := time.Now()
+				runner.Stop()
+				rec.add("TR:%d", time.Since(t0).Milliseconds())
+				close(fin)
+			}()
 			if !wait(fin, 8*time.Second) || !wait(runDone, 8*time.Second) {
 				res.hung = true
 			}
@@ -382,12 +378,18 @@ func runHTTPScenario(sc HScenario) hResult {
 		go func() { inflightWg.Wait(); close(done) }()
 		wait(done, 3*time.Second)
 	}
-	subCancel()
-	wait(subDone, time.Second)
-	stMu.Lock()
 	res.events, _ = rec.snapshot()
-	res.events = append(res.events, "SS:"+strings.Join(states, ">"))
-	stMu.Unlock()
+	ret := ""
+	for _, e := range res.events {
+		if strings.HasPrefix(e, "RET:") {
+			ret = strings.TrimPrefix(e, "RET:")
+		}
+	}
+	async := false
+	for _, op := range sc.Ops {
+		async = async || op.Async
+	}
+	res.stream = streamLine(watch, ret, !async)
 	return res
 }
 
@@ -428,8 +430,9 @@ func genHScenario(r interface {
 		}
 		return rs
 	}
+	lateMs := r.IntN(60)
 	base := HConfig{Kind: "ok", Addr: 0, DrainMs: []int{60, 100, 200}[r.IntN(3)], ReadMs: 1000, Routes: genRoutes()}
-	sc := HScenario{Configs: []HConfig{base}}
+	sc := HScenario{Configs: []HConfig{base}, LateMs: lateMs}
 	kind := "reloads"
 	nops := 1 + r.IntN(4)
 	cur := base
@@ -574,8 +577,11 @@ func runHTTPSrv(o Opts) {
 		}
 		ev := strings.Join(r.events, " ")
 		h := hHeader(j.sc, r)
-		for _, c := range []string{"c12holds", "c13holds", "c14holds", "c08holds"} {
+		for _, c := range []string{"c12holds", "c13holds", "c14holds"} {
 			e.Case(c+" "+h+" "+ev, "true")
+		}
+		if r.stream != "" {
+			e.Case(r.stream+" scn~"+h[strings.Index(h, "scn~")+4:], "true")
 		}
 		e.Case("httpseq "+h+" "+ev, "agree")
 		if strings.Contains(ev, "LC") || strings.Contains(ev, "RQ") {
